@@ -6,7 +6,7 @@ D=/verif/seeded/$ID
 mkdir -p "$D"
 cp "$OUT/patch.diff" "$D/patch.diff"
 for f in demo.rs demo.py demo.sh; do [ -f "$OUT/$f" ] && cp "$OUT/$f" "$D/$f"; done
-/verif/tools/verify_seeded.sh "$OUT" > "$D/verify.log" 2>&1
+if [ -f "$OUT/demo.py" ]; then /verif/tools/verify_seeded_py.sh "$OUT" > "$D/verify.log" 2>&1; else /verif/tools/verify_seeded.sh "$OUT" > "$D/verify.log" 2>&1; fi
 python3 - "$OUT/meta.json" "$D" "$CAUGHT" "$MISSED" <<'PY'
 import json,sys,re
 src,d,caught,missed=sys.argv[1:5]
